@@ -108,6 +108,22 @@ def roundtrip_fn(kind, k, strand, chunk):
             r = AnnotationCollection.from_dict(o.to_dict(), par)
         d1, d2 = o.to_dict(), r.to_dict()
         extra = True
+        alt = None
+        if par is None:
+            # the alternative constructors (from a Location object) describe the same object as the coordinate-list constructors
+            if kind == "cds":
+                alt = CDSInterval.from_location(o.chromosome_location, list(o.frames), qualifiers=Q, protein_id="p", product="pr", sequence_name="chr1")
+            elif kind == "tx":
+                alt = TranscriptInterval.from_location(o.chromosome_location, qualifiers=Q, transcript_id="tx", sequence_name="chr1", is_primary_tx=True)
+            elif kind == "txcds":
+                alt = TranscriptInterval.from_location(o.chromosome_location, cds=o.cds, qualifiers=Q, transcript_id="tx", transcript_symbol="sym", protein_id="prot",
+                                                       product="prod", sequence_name="chr1")
+            elif kind == "feat":
+                alt = FeatureInterval.from_location(o.chromosome_location, qualifiers=Q, sequence_name="chr1", feature_types=["a", "b"], feature_name="fn", feature_id="fid")
+        if alt is not None and not DEQ(alt.to_dict(), d1):
+            return False
+        if alt is not None and not (alt.guid == o.guid):
+            return False
         if kind in ("txcds", "txphase"):
             # the rebuilt CDS uses the same frames, and the exported names are those frames
             extra = [f.name for f in o.cds.frames] == [f.name for f in r.cds.frames] == list(d1["cds_frames"]) and \
